@@ -112,12 +112,7 @@ class Check:
             cmd = ["tlapm", "--cache-dir", str(wd), "--stretch", "6" if attempt == 1 else "15", "--threads", "8",
                    "-I", "/opt/veriftools/tlapm/lib/tlaps", module]
             t0 = time.time()
-            try:
-                p = subprocess.run(cmd, cwd=str(SPEC / "tlaps"), stdout=subprocess.PIPE, stderr=subprocess.STDOUT,
-                                   text=True, timeout=timeout)
-                out = p.stdout
-            except subprocess.TimeoutExpired:
-                out = "TIMEOUT"
+            _rc, out = common.run_group(cmd, cwd=SPEC / "tlaps", timeout=timeout)
             shutil.rmtree(wd, ignore_errors=True)
             m = re.search(r"All (\d+) obligations? proved", out)
             if m:
@@ -140,12 +135,7 @@ class Check:
                               ("step", ["--init=IndInit", "--length=1"])):
             cmd = ["apalache-mc", "check", f"--cinit={cinit}", f"--inv={ind}", f"--out-dir={wd}"] + args + [module]
             t0 = time.time()
-            try:
-                p = subprocess.run(cmd, cwd=str(SPEC / "apalache"), stdout=subprocess.PIPE, stderr=subprocess.STDOUT,
-                                   text=True, timeout=timeout)
-                out = p.stdout
-            except subprocess.TimeoutExpired:
-                out = "TIMEOUT"
+            _rc, out = common.run_group(cmd, cwd=SPEC / "apalache", timeout=timeout)
             ok = "The outcome is: NoError" in out
             results.append({"obligation": f"{module}:{label}", "discharged": ok, "wall_s": round(time.time() - t0, 1)})
             if not ok and "The outcome is: Error" in out:
